@@ -144,6 +144,8 @@ void hist(actor *a, const char *what, long v1, long v2, long v3)
         a->pc_heap, what, v1, v2, v3);
 }
 
+static char g_envA[256], g_envB[256];
+extern void env_probe(const char *tag, const char *setting);
 #include "ops.h"
 
 /* ------------------------------------------------------------------ */
@@ -239,6 +241,7 @@ static void parse_case(char *text)
     for (int i = 0; i < MAXEXT; i++)
         G.ext[i].skip_mutex = -1;
     g_nenv = 0;
+    g_envA[0] = g_envB[0] = 0;
     char *save;
     for (char *line = strtok_r(text, "\n", &save); line; line = strtok_r(NULL, "\n", &save)) {
         char tmp[64];
@@ -269,6 +272,12 @@ static void parse_case(char *text)
             G.drain = (int)kv(line, "drain", 1);
             G.tick = (uint64_t)kv(line, "tick", 1);
             G.leakcheck = (int)kv(line, "leakcheck", 1);
+        } else if (!strncmp(line, "env A ", 6) || !strncmp(line, "env B ", 6)) {
+            char *dst = line[4] == 'A' ? g_envA : g_envB;
+            strncpy(dst, line + 6, 255);
+            char *e = dst + strlen(dst);
+            while (e > dst && e[-1] == '\n')
+                *--e = 0;
         } else if (!strncmp(line, "env", 3)) {
             char *p = line + 3;
             while (*p == ' ')
